@@ -682,8 +682,17 @@ class Dataset(AbstractDataset, dict, OpMixin, GetSetDelAttrMixin):
             values = np.asarray(values)
 
         # take axis, do not raise error
-        dataset = self.take_axis(values, axis=axis, indexing='label', 
-                                 mode='raise' if raise_error else 'clip')
+        if method == 'right':
+            # same neighbour as DimArray.reindex_axis (searchsorted side)
+            from dimarray.core.indexing import locate_many
+            ax = self.axes[axis]
+            indices = locate_many(ax.values, values, side=method)
+            if raise_error and np.any(ax.values.take(indices) != values):
+                raise IndexError("Some values where not found in the axis: {}".format(values[ax.values.take(indices) != values]))
+            dataset = self.take_axis(indices, axis=axis, indexing='position')
+        else:
+            dataset = self.take_axis(values, axis=axis, indexing='label', 
+                                     mode='raise' if raise_error else 'clip')
 
         # Replace mismatch with missing values?
         newax = dataset.axes[axis]
